@@ -22,6 +22,12 @@ def bad_values(obj, name, ann, default):
         out.append(("wrong-dimension:zero", SourceValue(0 * wrong.value.units)))
         if default is not None and hasattr(default.value, "units") and name not in type(obj).attributes_that_can_have_negative_values():
             out.append(("negative", SourceValue(-1 * default.value.units)))
+            # a negative amount is negative whatever its size in the unit it is written in
+            out.append(("negative:small-magnitude", SourceValue(-3e-7 * default.value.units)))
+        st_ = getattr(obj, "server_type", None)
+        if name == "fixed_nb_of_instances" and st_ is not None and str(getattr(st_, "value", "")) in ("autoscaling", "serverless"):
+            # well-typed, but a fixed count is only allowed on on-premise servers (allowed-values tables of the server classes)
+            out.append(("value-not-allowed-for-the-server-type", SourceValue(3 * u.dimensionless)))
         out.append(("wrong-type:float", 3.0))
         out.append(("wrong-type:str", "3 kg"))
         out.append(("wrong-type:object", SourceObject("some text")))
@@ -201,9 +207,9 @@ def classify(r):
     kind = r["case"].split(":", 1)[1].split("@")[0]
     phase = r["case"].rsplit("@", 1)[1]
     if r["status"] == "accepted":
-        if r["annot"] == "union" and ".fixed_nb_of_instances:" in r["case"]: return "D9"      # the parameters that are union-annotated on the pinned tree
+        if r["annot"] == "union" and ".fixed_nb_of_instances:" in r["case"] and kind.split(":")[0] in ("wrong-dimension", "negative", "wrong-type"): return "D9"      # the parameters that are union-annotated on the pinned tree: no type / dimension / sign validation
         if kind == "list-with-wrong-class" and phase == "construct": return "D17"
-    if r["status"] == "refused-but-model-changed" and kind in ("outside-allowed-list", "no-value-for-a-restricted-parameter"): return "D8"
+    if r["status"] == "refused-but-model-changed" and kind in ("outside-allowed-list", "no-value-for-a-restricted-parameter", "value-not-allowed-for-the-server-type"): return "D8"
     if r["status"] == "refused-but-model-changed" and r["annot"] == "union" and ".fixed_nb_of_instances:" in r["case"]: return "D9"
     return f"C14|{r['case']}|{r['status']}|{','.join(r['diff'])[:200]}"
 
